@@ -242,3 +242,39 @@ Proof.
 Qed.
 
 End SampleRuns.
+
+(* ---- the other two front-ends, by equality of runs (writers area, Cross_proofs) ---- *)
+From FlacWriters Require Import Bytes_proofs Writers_proofs Cross_proofs.
+From FlacE2E Require Transfer.
+
+Theorem byte_writer_metadata_read : forall enc_block md5 p,
+  (forall l, length (md5 l) = 16%nat) -> (forall l, Forall (fun b => b < 256) (md5 l)) ->
+  forall (u : list N -> bool), FlacMeta.Props_C11.utf8_ok u ->
+  forall en o rate bps ch tb wb chunks f,
+  options_wf o -> Forall plain (o_metadata o) -> seektables (o_metadata o) = 0%nat ->
+  byte_new p en [] o rate bps ch tb = Ok wb -> Forall byte_ok (concat chunks) ->
+  byte_run enc_block md5 p wb chunks = Ok f -> counters_fit (f_enc f) ->
+  FlacMeta.BlockList.read_blocks u (f_stream f) =
+    Ok (FlacMeta.Blocks.BStreaminfo (convM (f_si f)) :: map convB (f_blocks f)).
+Proof.
+  intros enc_block md5 p H1 H2 u Hu en o rate bps ch tb wb chunks f Hwf Hpl Hs0 Hnew Hbytes Hrun Hfit.
+  destruct (FlacE2E.Transfer.byte_new_sample_new p en o rate bps ch tb wb Hnew) as (ts & ws & Hs & Et).
+  rewrite (byte_writer_is_sample_writer enc_block md5 p en o rate bps ch tb ts wb ws chunks Hwf Hnew Hs Et Hbytes) in Hrun.
+  exact (proj1 (sample_writer_metadata_read enc_block md5 H1 H2 p u Hu o rate bps ch ts ws _ f Hwf Hpl Hs0 Hs Hrun Hfit)).
+Qed.
+
+Theorem channel_writer_metadata_read : forall enc_block md5 p,
+  (forall l, length (md5 l) = 16%nat) -> (forall l, Forall (fun b => b < 256) (md5 l)) ->
+  forall (u : list N -> bool), FlacMeta.Props_C11.utf8_ok u ->
+  forall o rate bps ch tc wc chunks f,
+  options_wf o -> Forall plain (o_metadata o) -> seektables (o_metadata o) = 0%nat ->
+  channel_new p [] o rate bps ch tc = Ok wc -> Forall (chunk_ok (N.to_nat ch)) chunks ->
+  channel_run enc_block md5 p wc chunks = Ok f -> counters_fit (f_enc f) ->
+  FlacMeta.BlockList.read_blocks u (f_stream f) =
+    Ok (FlacMeta.Blocks.BStreaminfo (convM (f_si f)) :: map convB (f_blocks f)).
+Proof.
+  intros enc_block md5 p H1 H2 u Hu o rate bps ch tc wc chunks f Hwf Hpl Hs0 Hnew Hchunks Hrun Hfit.
+  destruct (FlacE2E.Transfer.channel_new_sample_new p o rate bps ch tc wc Hnew) as (ts & ws & Hs & Et).
+  rewrite (channel_writer_is_sample_writer enc_block md5 p o rate bps ch tc ts wc ws chunks Hwf Hnew Hs Et Hchunks) in Hrun.
+  exact (proj1 (sample_writer_metadata_read enc_block md5 H1 H2 p u Hu o rate bps ch ts ws _ f Hwf Hpl Hs0 Hs Hrun Hfit)).
+Qed.
